@@ -289,6 +289,62 @@ def run(ctx):
         oid = 'h%d' % i
         obs.append({'id': oid, 'dump': dump.abstract(), 'reqs': reqs})
         info[oid] = (w, dump, reqs)
+    # ---- use BEFORE definition: a record whose text reads what a LATER record of the same dump teaches (a thread named after a
+    # record about it, a string announced after its use, an END whose START is the dump's last record).  Read once, the early
+    # record sees nothing; whatever the first listing learned must not be there when the request is repeated on the same object.
+    # (Own random stream: the histories above stay the histories they were.)
+    import random as _random
+    nubd = 0
+    for n_ in range(12 if ctx.quick else 120):
+        r2 = _random.Random(ctx.seed * 7919 + 1000 + n_)
+        w = World(r2, big_tids=False, allow_zero_tid=False)
+        g2 = gen.ProgGen(w, r2, ntids=3, noise=0.0)
+        a, b = r2.sample([1, 2, 3], 2)
+        sid = 70 + n_
+        name = g2.pick('SYS1')
+        if not name.startswith('BSC_'):
+            name = 'BSC_open'
+        early = [[w.term(a, b)], [w.usestr(g2.pick('USESTR'), 3, a, sid)], [w.sys(name, 2, b)], [w.term(b, b)]]
+        late = [w.tname(b, r2.choice([b'worker', b'main thread', b'a' * 40])), w.gstr(b, b'/late/string', sid), [w.sys(name, 1, b)],
+                w.tname(a, b'other', prev=r2.random() < 0.5)]
+        r2.shuffle(early)
+        r2.shuffle(late)
+        mid = [g2.ord_single(r2.randrange(1, 4)) for _ in range(r2.randrange(0, 3))]
+        stream = [e for it in early + mid + late for e in it]
+        dump = Dump(w, stream, [(1, 11, 'alpha'), (2, 12, 'beta'), (3, 13, 'gamma')])
+        ref = PyKdebugParser()
+        base, btexts = request(w, ref, dump, 'traces')
+        text_of = {(o['k'], o['first']): t for o, t in zip(base['out'], btexts)}
+        p = PyKdebugParser()
+        cfgs = [{'ftid': 0, 'fproc': {'kind': 'none'}, 'fclass': [], 'fsub': []},
+                r2.choice([{'ftid': 0, 'fproc': {'kind': 'none'}, 'fclass': [], 'fsub': []},
+                           {'ftid': a, 'fproc': {'kind': 'none'}, 'fclass': [], 'fsub': []},
+                           {'ftid': 0, 'fproc': {'kind': 'pid', 'pid': 10 + b}, 'fclass': [], 'fsub': []}]),
+                {'ftid': 0, 'fproc': {'kind': 'none'}, 'fclass': [], 'fsub': []}]
+        for j, cfg in enumerate(cfgs):
+            apply_cfg(w, p, cfg)
+            r, texts = request(w, p, dump, 'traces')
+            nubd += 1
+            got = {(o['k'], o['first']): t for o, t in zip(r.get('out', []), texts)}
+            bad = None
+            if 'err' in r:
+                bad = 'raised %s' % r['err']
+            else:
+                for key, t in got.items():
+                    if key not in text_of:
+                        bad = 'lists a trace (first event %d, completed by event %d) the unfiltered run of a fresh object does not have' % (key[1], key[0])
+                    elif text_of[key] != t:
+                        bad = 'trace completed by event %d reads %r, in the run of a fresh object %r' % (key[0], t, text_of[key])
+                    if bad:
+                        break
+                if not bad and j in (0, 2) and set(got) != set(text_of):
+                    bad = 'lists %d traces, the run of a fresh object %d' % (len(got), len(text_of))
+            if bad:
+                ctx.violation('C13/repeat-differs/use-before-definition', 'request %d on the same object (cfg %s): %s' % (j + 1, cfg, bad),
+                              {'kind': 'pipeline', 'cfg': cfg, 'request_index': j + 1, 'file_hex': dump.blob.hex(),
+                               'stream': describe(w, dump.stream)})
+                break
+    ctx.extra['use_before_definition_requests'] = nubd
     nv, rej, _ = validate_observations('Pipeline_Val', obs, ctx.workdir, name='c13val', consts=VAL_CONSTS, timeout=3000)
     ctx.traces += nv
     for oid, clause in rej:
